@@ -41,6 +41,7 @@ type Rec struct {
 	Egress  int    `json:"egress"`
 	Ingress int    `json:"ingress"`
 	Prio    int    `json:"prio"` // ingressNetworkPolicyRulePriority (signed32; 0 = empty)
+	Lacking bool   `json:"lacking,omitempty"` // the record carries no flowEndReason element
 	Start   int    `json:"start"`
 	End     int    `json:"end"`
 	Vals    []int  `json:"vals"`
@@ -108,7 +109,11 @@ func BuildRecord(r Rec) entities.Record {
 		entities.NewUnsigned8InfoElement(ie("protocolIdentifier", 0), t.Proto),
 		entities.NewDateTimeSecondsInfoElement(ie("flowStartSeconds", 0), uint32(r.Start)),
 		entities.NewDateTimeSecondsInfoElement(ie("flowEndSeconds", 0), uint32(r.End)),
-		entities.NewUnsigned8InfoElement(ie("flowEndReason", 0), uint8(r.Reason)),
+	)
+	if !r.Lacking {
+		elems = append(elems, entities.NewUnsigned8InfoElement(ie("flowEndReason", 0), uint8(r.Reason)))
+	}
+	elems = append(elems,
 		entities.NewStringInfoElement(ie("tcpState", registry.AntreaEnterpriseID), "ESTABLISHED"),
 		entities.NewStringInfoElement(ie("httpVals", registry.AntreaEnterpriseID), ""),
 	)
